@@ -104,7 +104,7 @@ def scenario (sA : St) (pre : List HOp) (d : Deriv) (ops : List HOp) : String :=
   let changedX := match x2 with
     | some (x, bx) => decide (shown h3 x ≠ bx)
     | none => false
-  s!"{ds.length} {" ".intercalate sh} ; {b01 (sharesB b3 a2)} {b01 changedA} {b01 changedX} {bits a2} ; {" ".intercalate tr}"
+  s!"{ds.length} {" ".intercalate sh} ; {b01 (b == a2 || sharesB b3 a2)} {b01 changedA} {b01 changedX} {bits a2} ; {" ".intercalate tr}"
 
 def handle (op : String) (args : List String) : Option String :=
   match op with
